@@ -850,6 +850,7 @@ fn profile_c19() -> Profile {
     p.certs = 100;
     p.votes = 30;
     p.proposals = 30;
+    p.fine_cpb = 250;
     p
 }
 fn profile_c20() -> Profile {
